@@ -107,9 +107,10 @@ Definition entries (rs : list rec) : list N :=
 Definition last_commit (rs : list rec) : N :=
   fold_left (fun acc r => match r with RState c => c | _ => acc end) rs 0.
 
-(* WAL.enti: the index of the last entry saved; SaveSnapshot raises it to the snapshot index when that is ahead *)
+(* WAL.enti: the index of the last entry saved; SaveSnapshot raises it to the snapshot index when that is ahead (an
+   incoming snapshot's record that was left invalid by a crash is not an entry for the ReadAll of the next start) *)
 Definition last_entry (rs : list rec) : N :=
-  fold_left (fun acc r => match r with REnt i => i | RSnapIn _ _ i => N.max acc i | _ => acc end) rs 0.
+  fold_left (fun acc r => match r with REnt i => i | RSnapIn true _ i => N.max acc i | _ => acc end) rs 0.
 
 Definition memN (x : N) (l : list N) : bool := existsb (N.eqb x) l.
 
@@ -271,7 +272,8 @@ Inductive ap_pc :=
 (* applySnapshot (incoming snapshot i) *)
 | ApSnapPrepare (i : N)       (* inside PrepareSnapshot: the checkpoint of i is looked for / fetched *)
 | ApSnapPrepared (i : N)      (* the transfer result is handed to the raft loop; waiting for raftDone *)
-| ApSnapRestoring (i : N).    (* raft has persisted the snapshot; inside RestoreFromSnapshot *)
+| ApSnapRestoring (i : N) (k : nat).
+    (* raft has persisted the snapshot; inside RestoreFromSnapshot: k = 0 not begun, 1 data directory emptied, 2 checkpoint copied *)
 
 Inductive sn_pc := SnStarted | SnCkDone | SnCreated | SnFile | SnMarked | SnSynced | SnReleased | SnUpdated.
 
@@ -402,6 +404,18 @@ Definition R_RECOVER : N := 105.    (* the restart cannot proceed on this world 
 
 Definition running (s : state) : bool := match rc s with RcRunning => true | _ => false end.
 
+(* not followed: a checkpoint fetched from another replica under the index the local backup loop is writing right now *)
+Definition fs_clash (s : state) (i : N) : bool :=
+  match ckp s with CkSaving a _ => a =? i | _ => false end.
+
+(* in every crash image (0 .. unflushed buffered records lost) the last saved commit index is below i *)
+Definition lc_images_lt (s : state) (i : N) : bool :=
+  forallb (fun j => last_commit (all_recs (drop_tail (segs s) j)) <? i) (seq 0 (S (unflushed s))).
+
+(* a hard state is in the file (not only in the write buffer) *)
+Definition has_flushed_state (s : state) : bool :=
+  existsb (fun r => match r with RState _ => true | _ => false end) (all_recs (drop_tail (segs s) (unflushed s))).
+
 (* node/raft.go shouldPersistBeforeApply *)
 Definition overlap (r : ready) : bool :=
   (0 <? r_cn r) && (0 <? r_n r) && (r_first r <=? r_clast r).
@@ -426,7 +440,7 @@ Definition ready_ok (s : state) (r : ready) : bool :=
      Ready carries the new commit index and nothing else *)
   && (if 0 <? r_snap r
       then (r_n r =? 0) && (r_cn r =? 0) && r_hs r && (r_commit r =? r_snap r) && (rs_last s <? r_snap r)
-           && (published s <? r_snap r) && (last_commit (all_recs (segs s)) <? r_snap r)
+           && (published s <? r_snap r) && lc_images_lt s (r_snap r) && has_flushed_state s
       else true).
 
 (* wal.ReleaseLockTo(i) on the locked segments ls (positions from nrel on): keep from the segment just
@@ -461,6 +475,8 @@ Definition sn_step (s : state) (i : N) (from to : sn_pc) (f : state -> state) : 
   end.
 
 Definition last_of (l : list N) : N := last l 0.
+
+
 
 Definition reset_volatile (s : state) : state :=
   mkState (segs s) 0 0 (snapfiles s) (ckpts s) None [] (restoring s) RcStart (length (segs s)) false 0 0 0 RdIdle 0 0 0 0 [] ApIdle 0 0 []
@@ -502,7 +518,7 @@ Definition save_records (s : state) (r : ready) : state :=
    to be in the file yet *)
 Definition pending (s : state) : option ready :=
   match rdp s with
-  | RdSnapSaved r | RdSaving r _ _ | RdCutting r _ _ | RdBegun r _ _ => if 0 <? r_snap r then Some r else None
+  | RdSnapSaving r _ | RdSnapSaved r | RdSaving r _ _ | RdCutting r _ _ | RdBegun r _ _ => if 0 <? r_snap r then Some r else None
   | _ => None
   end.
 
@@ -603,7 +619,10 @@ Definition step (c : config) (s : state) (ev : event) : result state :=
     match rdp s, app s with
     | RdBegun r false true, ApSnapPrepared j =>
       if negb (i =? r_snap r) || negb (i =? j) || negb (0 <? i) then Err R_ARG
-      else Ok (s <| set_rdp := RdSnapSaving r false |>)
+      else match lookup i (ckpts s) with
+           | Some _ => Ok (s <| set_rdp := RdSnapSaving r false |>)
+           | None => Err R_GUARD       (* PrepareSnapshot has put the checkpoint on the local disk *)
+           end
     | RdBegun _ false true, _ => Err R_GUARD
     | _, _ => Err R_PC
     end
@@ -630,6 +649,9 @@ Definition step (c : config) (s : state) (ev : event) : result state :=
     | RdBegun r true true =>
       if negb (0 <? r_snap r) then Err R_PC
       else if negb (i =? r_snap r) then Err R_ARG
+      (* the apply loop is waiting for raftDone inside applySnapshot *)
+      else if negb (match app s with ApSnapPrepared j => j =? i | _ => false end) then Err R_GUARD
+      else if negb (forallb (fun b => b_snap b =? 0) (queue s)) then Err R_GUARD
       else Ok (s <| set_segs := validated i (segs s) |> <| set_unflushed := 0%nat |> <| set_unsynced := 0%nat |>
                  <| set_rd_done := i |> <| set_rdp := RdSnapApply r 0 |>)
     | _ => Err R_PC
@@ -667,7 +689,13 @@ Definition step (c : config) (s : state) (ev : event) : result state :=
     | ApIdle, b :: q =>
       if negb (running s) then Err R_PC
       else if negb (a =? applied s) || negb (n =? b_n b) || negb (sn =? b_snap b) then Err R_ARG
-      else if 0 <? b_snap b then Ok (s <| set_queue := q |> <| set_app := ApSnapPrepare (b_snap b) |>)
+      else if 0 <? b_snap b then
+        (* the raft loop is waiting for the transfer result of this very snapshot *)
+        match rdp s with
+        | RdBegun r false true =>
+          if r_snap r =? b_snap b then Ok (s <| set_queue := q |> <| set_app := ApSnapPrepare (b_snap b) |>) else Err R_GUARD
+        | _ => Err R_GUARD
+        end
       else Ok (s <| set_queue := q |> <| set_app := ApApplying b |>)
     | _, _ => Err R_PC
     end
@@ -683,18 +711,18 @@ Definition step (c : config) (s : state) (ev : event) : result state :=
     match app s with
     | ApSnapPrepared j =>
       if negb (i =? j) then Err R_ARG
-      else if i <=? rd_done s then Ok (s <| set_app := ApSnapRestoring i |>) else Err R_GUARD
+      else if i <=? rd_done s then Ok (s <| set_app := ApSnapRestoring i 0 |>) else Err R_GUARD
     | _ => Err R_PC
     end
   | EvAsRestored i =>
     match app s, engine s with
-    | ApSnapRestoring j, Some _ =>
+    | ApSnapRestoring j 2, Some _ =>
       if negb (i =? j) then Err R_ARG
       (* restoreFromPath ends with purgeOldCheckpoint, like the restore of a restart *)
       else Ok (s <| set_ckpts := purge_ckpts (eff_keep_ckpt c) (latest s) (ckpts s) |>
                  <| set_applied := i |> <| set_snapi := i |> <| set_acked := N.max (acked s) i |> <| set_cache := [] |>
                  <| set_restoring := None |> <| set_app := ApApplying (mkBatch 0 0 0 i) |>)
-    | ApSnapRestoring _, None => Err R_ENGINE
+    | ApSnapRestoring _ 2, None => Err R_ENGINE
     | _, _ => Err R_PC
     end
   (* prepareSnapshotForStore: the checkpoint of an incoming snapshot is on the local disk already, or it is copied from
@@ -710,11 +738,13 @@ Definition step (c : config) (s : state) (ev : event) : result state :=
     end
   | EvFsCopy i =>
     (* the directory exists (wholly or partly), still marked incomplete *)
+    if fs_clash s i then Err R_ENV else
     match lookup i (ckpts s) with
     | None => if 0 <? i then Ok (s <| set_ckpts := (i, None) :: remove_ckpt i (ckpts s) |>) else Err R_ARG
     | Some _ => Err R_GUARD
     end
   | EvFsComplete i =>
+    if fs_clash s i then Err R_ENV else
     if memN i (map fst (ckpts s))
     then match lookup i (ckpts s) with
          | None => Ok (s <| set_ckpts := (i, Some (range 0 i)) :: remove_ckpt i (ckpts s) |>)
@@ -884,7 +914,7 @@ Definition step (c : config) (s : state) (ev : event) : result state :=
       | Some j =>
         if i =? j
         then Ok (s <| set_snapfiles := if clean_orphans c then remove_orphans (segs s) (snapfiles s) (Some j) else snapfiles s |>
-                   <| set_latest := j |> <| set_restoring := None |> <| set_rc := RcChosen j |>)
+                   <| set_latest := j |> <| set_restoring := None |> <| set_engine := None |> <| set_rc := RcChosen j |>)
         else Err R_ARG
       | None => Err R_ARG
       end
@@ -925,10 +955,10 @@ Definition step (c : config) (s : state) (ev : event) : result state :=
     | RcRunning =>
       (* RestoreFromSnapshot of an incoming snapshot *)
       match app s with
-      | ApSnapRestoring j =>
+      | ApSnapRestoring j 0 =>
         if negb (i =? j) then Err R_ARG
         else match lookup j (ckpts s) with
-             | Some _ => Ok (s <| set_engine := None |> <| set_restoring := Some j |>)
+             | Some _ => Ok (s <| set_engine := None |> <| set_restoring := Some j |> <| set_app := ApSnapRestoring j 1 |>)
              | None => Err R_RECOVER
              end
       | _ => Err R_PC
@@ -955,10 +985,10 @@ Definition step (c : config) (s : state) (ev : event) : result state :=
       end
     | RcRunning =>
       match app s, restoring s with
-      | ApSnapRestoring j, Some _ =>
+      | ApSnapRestoring j 1, Some _ =>
         if negb (i =? j) then Err R_ARG
         else match lookup j (ckpts s) with
-             | Some l => Ok (s <| set_engine := Some l |>)
+             | Some l => Ok (s <| set_engine := Some l |> <| set_app := ApSnapRestoring j 2 |>)
              | None => Err R_RECOVER
              end
       | _, _ => Err R_PC
@@ -968,7 +998,7 @@ Definition step (c : config) (s : state) (ev : event) : result state :=
   | EvRsMarkerGone =>
     match restoring s, engine s with
     | Some _, Some _ =>
-      if running s && negb (match app s with ApSnapRestoring _ => true | _ => false end) then Err R_PC
+      if running s && negb (match app s with ApSnapRestoring _ 2 => true | _ => false end) then Err R_PC
       else Ok (s <| set_restoring := None |>)
     | _, _ => Err R_PC
     end
@@ -1065,8 +1095,9 @@ Definition inflight (s : state) : list event :=
    | _ => []
    end)
   ++ (match app s, restoring s, engine s with
-      | ApSnapRestoring i, None, Some _ => if running s then [EvRsRemoved i] else []
-      | ApSnapRestoring i, Some _, Some _ => if running s then [EvRsMarkerGone; EvAsRestored i] else []
+      | ApSnapRestoring i 0, None, Some _ => if running s then [EvRsRemoved i] else []
+      | ApSnapRestoring i 2, Some _, Some _ => if running s then [EvRsMarkerGone; EvAsRestored i] else []
+      | ApSnapRestoring i 2, None, Some _ => if running s then [EvAsRestored i] else []
       | _, _, _ => []
       end)
   ++ flat_map (fun q => match snd q with SnCreated => [EvSnFile (fst q)] | SnFile => [EvSnMarked (fst q)] | _ => [] end) (sns s)
